@@ -74,8 +74,8 @@ def newVal (regs : Nat → List Nat) (σ : Nat → List Byte) : Op → Option (L
   | .substr _ w st ln => some (subList (σ w) st ln)
   | .join _ toks sep => some (joinL sep (toks.map (·.map some)))
   | .printf _ f => some ((render f).map some)
-  | .replaceC v a b => some (mapCStr (fun c => if c = a then b else c) (σ v))
-  | .lower v => some (mapCStr toLower (σ v))
+  | .replaceC v a b => (allSome (σ v)).map fun _ => mapCStr (fun c => if c = a then b else c) (σ v)
+  | .lower v => (allSome (σ v)).map fun _ => mapCStr toLower (σ v)
   | .tokenC _ w sep start => (allSome (σ w)).bind fun c =>
       if 0 ∉ c then some ((if start ≥ c.length then [] else tokenL c start (strchrL (c.drop start) sep)).map some)
       else none
@@ -86,7 +86,7 @@ def newVal (regs : Nat → List Nat) (σ : Nat → List Byte) : Op → Option (L
   | .replaceL v nd rp => (allSome (σ v)).bind fun c =>
       if 0 ∉ c ∧ 0 ∉ nd then some (replaceAll nd (rp.map some) c) else none
   | .trim v chars => (allSome (σ v)).map (fun c => (trimL chars c).map some)
-  | .upper v => some (mapCStr toUpper (σ v))
+  | .upper v => (allSome (σ v)).map fun _ => mapCStr toUpper (σ v)
 
 def step (regs : Nat → List Nat) (σ : Nat → List Byte) (op : Op) : Option (Nat → List Byte) :=
   (newVal regs σ op).map (fun val => upd σ op.target val)
